@@ -771,9 +771,14 @@ func (n *MapLiteralNode) String() string {
 }
 
 func (n *MapLiteralNode) Children() []Node {
+	var keys = make([]string, 0, len(n.Items))
+	for k := range n.Items {
+		keys = append(keys, k)
+	}
+	sort.Strings(keys)
 	var nodes []Node
-	for _, v := range n.Items {
-		nodes = append(nodes, v)
+	for _, k := range keys {
+		nodes = append(nodes, n.Items[k])
 	}
 	return nodes
 }
